@@ -245,6 +245,7 @@ Definition Out (p : para) (seg : list rng) : Prop := chain (vr p) /\ Forall (fun
 Record PI (p : para) (seg : list rng) : Prop := {
   pi_out : Out p seg;
   pi_span : seg <> [] -> within (first_last p) seg;
+  pi_lines : seg <> [] -> p_lines p <> [];
   pi_empty : seg = [] -> Forall (fun v : str => v = []) (pvals p);
   pi_exact : is_catchall p = false -> FB p seg;
 }.
@@ -279,6 +280,7 @@ Proof.
     rewrite (first_last_mm p n0 r0 rest El). apply span_within. intros x Hx.
     assert (Hin : In x seg) by (rewrite <- E; exact Hx).
     apply within_self; [now apply (chain_fst_le seg)|exact Hin].
+  - intros Hne El. apply Hne. rewrite <- (fb_ranges _ _ HF), El. reflexivity.
   - intros Hnil. rewrite (fb_none _ _ HF Hnil). apply empty_build_vals.
   - intros _. exact HF.
 Qed.
@@ -371,6 +373,7 @@ Proof.
   - destruct (run_without_content _ _ HF Hcat Hnil) as [Ev Er]. constructor.
     + unfold Out. rewrite vr_merge, Ev. cbn [from_formatted_lines nonempty]. split; [exact chain_nil|constructor].
     + intros H. contradiction.
+    + intros H. contradiction.
     + intros _. unfold pvals. rewrite merge_run_dict, Ev. cbn [from_formatted_lines map snd]. repeat constructor.
     + intros H. discriminate H.
   - assert (Hw : within (first_last (merge_run run)) (concat segs)).
@@ -382,6 +385,7 @@ Proof.
       * split; [apply chain_one; apply Hw|constructor; [exact Hw|constructor]].
       * split; [exact chain_nil|constructor].
     + intros _. exact Hw.
+    + intros _. apply merge_run_has_lines.
     + intros H. contradiction.
     + intros H. discriminate H.
 Qed.
